@@ -158,7 +158,7 @@ def override_sets():
     sets.append(('range2', {P + 'A2:A3': [[6], [2]]}))
     sets.append(('block', {BLOCK: [[4, 7], [9, 'q']]}))
     sets.append(('formula', {P + 'B1': 100}))
-    sets.append(('two', {P + 'A1': 1, P + 'A2': 0}))
+    sets.append(('two+sparse range', {P + 'A1': 1, P + 'A2': 0, P + 'I1:I5': [[1], [2], [3], [4], [5]]}))   # a sparse range as a whole
     sets.append(('sparse', {P + 'H3': 6, P + 'H6': 1}))      # cells that are blank in the model (H6 is read through the solution)
     return sets
 
